@@ -171,6 +171,45 @@ func TestVF_C12_Forgeries(t *testing.T) {
 			}
 		}
 
+		// ---- a prover-side splitter that reports 4 squares while the structure is built (so the
+		// three-square rescaling is skipped) and 3 afterwards: the proof then has three C's but an
+		// unscaled factor. Verification must refuse it (or, if it accepts, the truth oracle judges
+		// what the library reports about it).
+		{
+			idx := sts[0].idx
+			m := credA.Attributes[idx]
+			// pick a difference that is a sum of three squares
+			d := int64(rapid.SampledFrom([]int{0, 1, 2, 3, 5, 6, 9, 14, 17, 27}).Draw(rt, "d3"))
+			ls := &lyingSplitter{}
+			st := &rangeproof.Statement{Sign: 1, Factor: 1, Bound: new(big.Int).Sub(m, bi(d)), Splitter: ls}
+			var p *ProofD
+			var err error
+			ps := vfh.Guard(func() {
+				p, err = credA.CreateDisclosureProof(D, map[int][]*rangeproof.Statement{idx: {st}}, false, ctx, nonce)
+			})
+			if ps == "" && err == nil && p != nil {
+				js2, _ := json.Marshal(p)
+				var back ProofD
+				if json.Unmarshal(js2, &back) == nil {
+					var acc bool
+					ps2 := vfh.Guard(func() { acc = back.Verify(pk, ctx, nonce, false) })
+					rec.Case("forgery/three-squares-with-unscaled-factor", true, fmt.Sprintf("ls|%s|%d|%v", kp.Name, d, attrsA))
+					if ps2 != "" {
+						rec.Fail(rt, ps2+":three-squares-with-unscaled-factor", det("lying splitter"))
+						return
+					}
+					if acc {
+						if v := c12Oracle(&back, credA.Attributes); v != "" {
+							rec.Fail(rt, v+":three-squares-with-unscaled-factor", det("lying splitter"))
+							return
+						}
+					}
+				}
+			} else {
+				rec.Class("lying-splitter-proof-not-created", 1)
+			}
+		}
+
 		// ---- honest list: credential A with range proofs, credential B without, same session
 		bA, err := credA.CreateDisclosureProofBuilder(D, rs, false)
 		if err != nil {
@@ -356,4 +395,29 @@ func TestVF_C12_Forgeries(t *testing.T) {
 			}
 		}
 	})
+}
+
+// lyingSplitter: SquareCount() is 4 on its first call and 3 afterwards; Split returns three squares.
+type lyingSplitter struct{ calls int }
+
+func (l *lyingSplitter) Ld() uint { return 8 }
+func (l *lyingSplitter) SquareCount() int {
+	l.calls++
+	if l.calls == 1 {
+		return 4
+	}
+	return 3
+}
+func (l *lyingSplitter) Split(delta *big.Int) ([]*big.Int, error) {
+	d := delta.Int64()
+	for a := int64(0); a*a <= d; a++ {
+		for b := int64(0); a*a+b*b <= d; b++ {
+			for c := int64(0); a*a+b*b+c*c <= d; c++ {
+				if a*a+b*b+c*c == d {
+					return []*big.Int{bi(a), bi(b), bi(c)}, nil
+				}
+			}
+		}
+	}
+	return nil, fmt.Errorf("not a sum of three squares")
 }
